@@ -3,7 +3,7 @@
 From Coq Require Import List Bool Arith ZArith QArith String Lia.
 Import ListNotations.
 From DA Require Import Base.PyRT Base.Val Model.Sem Proofs.SemBasicP Model.ColumnsUsed Proofs.ColumnsUsedP1 Proofs.ColumnsUsedP2
-  Proofs.ColumnsUsedP3 Model.JoinSpec Proofs.JoinP1 Model.SqlGen Model.SqlSem Proofs.SqlGenP1 Proofs.SqlGenP2 Proofs.SqlGenP4.
+  Proofs.ColumnsUsedP3 Proofs.ColumnsUsedP4 Model.JoinSpec Proofs.JoinP1 Model.SqlGen Model.SqlSem Proofs.SqlGenP1 Proofs.SqlGenP2 Proofs.SqlGenP3 Proofs.SqlGenP4.
 Local Open Scope list_scope.
 
 (* a table step handed on as the generator's result for a non-empty request has exactly the requested columns *)
@@ -202,8 +202,8 @@ Proof.
   set (RK := fun K => mktable K (map (fun p => map (fun k => join_item (cols A') (cols B') (fst p) (snd p) k (term_of tms k)) K) pairs')).
   set (q := TBinary nm (Some tms) ql (mk_tci (Some ul) false pl) (TJoin jt) qr (mk_tci (Some ur) false pr) on).
   assert (forall want, qsem fl e q want = sql_join_select (Some tms) want jt on A' B') as EQ.
-  { intros want. unfold q. cbn [qsem]. unfold csem in EA, EB. cbn [tc_cols] in EA, EB.
-    destruct (by_name ql (mk_tci (Some ul) false pl)); destruct (by_name qr (mk_tci (Some ur) false pr)); rewrite EA, EB; reflexivity. }
+  { intros want. unfold q. cbn [qsem]. unfold csem in EA, EB.
+    destruct (by_name ql (mk_tci (Some ul) false pl)); destruct (by_name qr (mk_tci (Some ur) false pr)); cbn [tc_cols] in *; rewrite EA, EB; reflexivity. }
   assert (forall K, K <> [] -> incl K (map fst tms) -> qsem fl e q (Some K) = Some (RK K)) as EK.
   { intros K NK IK. rewrite EQ. unfold sql_join_select. rewrite (select_keys_some false tms K NK), (NoAmb K IK). unfold RK. f_equal. f_equal.
     apply map_ext. intros p. rewrite map_map. reflexivity. }
@@ -251,6 +251,37 @@ Proof.
       apply map_ext. intros p. apply map_ext_in. intros k Ik. rewrite get_map_cols. assert (mem k K = true) as M by (apply mem_In, IC, Ik). rewrite M. reflexivity.
   - rewrite EQ. unfold sql_join_select. assert (select_keys false (Some tms) (Some []) = None) as E0 by (destruct tms; reflexivity). rewrite E0.
     eexists. split; [reflexivity|]. apply sel_nil_length. cbn [rows]. rewrite map_length. exact LP.
+  - intros n0 ts X. discriminate.
+Qed.
+
+(* the same step when it has no term at all (nothing requested, and the only requested-from-the-operands columns are common keys):
+   written SELECT * over the join; it still supplies the rows *)
+Lemma delivers_join_star nm pl pr ql qr jt on_a on_b ul ur A B :
+  f_join_null_match fl = false -> List.length on_a = List.length on_b ->
+  Delivers fl e ql ul A -> Delivers fl e qr ur B -> BareOk e ql ul -> BareOk e qr ur ->
+  NoDup ul -> NoDup ur -> ul <> [] -> ur <> [] -> incl on_a ul -> incl on_b ur ->
+  Delivers fl e (TBinary nm None ql (mk_tci (Some ul) false pl) (TJoin jt) qr (mk_tci (Some ur) false pr) (combine on_a on_b))
+           [] (sem_join (f_join_null_match fl) on_a on_b jt A B).
+Proof.
+  intros NM Len DL DR BL BR Nl Nr NEl NEr Ia Ib.
+  rewrite NM, (sem_join_is_spec on_a on_b jt A B Len). set (on := combine on_a on_b).
+  destruct (deliver_csem fl e ql ul A ul false pl DL Nl (incl_refl _)) as [A' [EA _]].
+  destruct (deliver_csem fl e qr ur B ur false pr DR Nr (incl_refl _)) as [B' [EB _]].
+  destruct (operand_cols ql ul A pl A' DL BL Nl NEl EA) as [CA RA1]. destruct (operand_cols qr ur B pr B' DR BR Nr NEr EB) as [CB RB1].
+  assert (incl (map fst on) ul /\ incl (map snd on) ur) as [I1 I2].
+  { unfold on. split; intros x Hx; apply in_map_iff in Hx; destruct Hx as [[y z] [<- I]]; [apply in_combine_l in I; apply Ia, I|apply in_combine_r in I; apply Ib, I]. }
+  pose proof (join_pairs_rel ul ur jt on A A' B B' I1 I2 RA1 RB1) as HP.
+  set (T := sql_join_spec (jt_of jt) on A B).
+  assert (List.length (join_pairs jt on A' B') = List.length (rows T)) as LP.
+  { unfold T, sql_join_spec. cbn [rows]. rewrite spec_rows_pairs, map_length. symmetry. apply (F2_length _ _ _ HP). }
+  constructor.
+  - constructor.
+  - intros x [].
+  - intros x [].
+  - intros K NK _ IK. destruct K as [|k0 K']; [congruence|]. destruct (IK k0 (or_introl eq_refl)).
+  - cbn [qsem]. unfold csem in EA, EB.
+    destruct (by_name ql (mk_tci (Some ul) false pl)); destruct (by_name qr (mk_tci (Some ur) false pr)); cbn [tc_cols] in *; rewrite EA, EB;
+      (eexists; split; [reflexivity|]; apply sel_nil_length; cbn [rows]; rewrite map_length; exact LP).
   - intros n0 ts X. discriminate.
 Qed.
 
